@@ -877,15 +877,171 @@ func (t *TwinCase) Prepare() error {
 	if err := t.Wrapped.Prepare(); err != nil {
 		return err
 	}
+	if t.Flat == nil {
+		return nil
+	}
 	return t.Flat.Prepare()
 }
 func (t *TwinCase) Env() *Env { return t.Wrapped.env }
 func (t *TwinCase) Main() {
 	t.Wrapped.Main()
-	t.Flat.Main()
+	if t.Flat != nil {
+		t.Flat.Main()
+	}
+}
+
+func (t *TwinCase) SetDocOrder(flowOrder int, flowsFirst bool) {
+	t.Wrapped.SetDocOrder(flowOrder, flowsFirst)
+	if t.Flat != nil {
+		t.Flat.SetDocOrder(flowOrder, flowsFirst)
+	}
+}
+
+// genC12Ends: a sub-process whose content forks into branches that end each in its own way - at an end event, silently
+// at a task or throw event without outgoing flow, or at a task whose answer carries an error with an exit decision
+// (or with retries that run out). The parent's token has to continue past the sub-process exactly once, when the
+// last inner token is gone, however it went. No inlined twin here (ends inside the content are where inlining
+// legitimately differs): the reference token game alone decides.
+func genC12Ends(d *Draw) Case {
+	defs := &Definitions{}
+	g := &Graph{ID: "P1", Executable: true}
+	defs.Procs = []*Graph{g}
+	scripts := map[string][]AnswerSpec{}
+	mk := func(gg *Graph, id string) *Node {
+		return gg.addNode(&Node{ID: id, Kind: "task", Results: []string{"r_" + id}})
+	}
+	g.addNode(&Node{ID: "Start", Kind: "start"})
+	cur := "Start"
+	par := d.N(3) == 2
+	loop := !par && d.N(3) == 2
+	acts := 1
+	if par {
+		g.addNode(&Node{ID: "PF", Kind: "and"})
+		g.connect(defs, cur, "PF", nil, -1)
+		cur = "PF"
+	}
+	if loop {
+		acts = 2 + d.N(2)
+		g.addNode(&Node{ID: "LM", Kind: "xor"})
+		g.connect(defs, cur, "LM", nil, -1)
+		cur = "LM"
+	}
+	// the sub-process, one or two levels
+	levels := 1 + d.N(2)
+	sg := &Graph{ID: "WG1"}
+	g.addNode(&Node{ID: "W1", Kind: "sub", Sub: sg})
+	g.connect(defs, cur, "W1", nil, -1)
+	inner := sg
+	inner.addNode(&Node{ID: "WS1", Kind: "start"})
+	if levels == 2 {
+		sg2 := &Graph{ID: "WG2"}
+		inner.addNode(&Node{ID: "W2", Kind: "sub", Sub: sg2})
+		inner.connect(defs, "WS1", "W2", nil, -1)
+		pre := "W2"
+		if d.Bool() {
+			mk(inner, "TO") // work left in the outer sub-process after the inner one
+			inner.connect(defs, "W2", "TO", nil, -1)
+			pre = "TO"
+		}
+		inner.addNode(&Node{ID: "WE1", Kind: "end"})
+		inner.connect(defs, pre, "WE1", nil, -1)
+		inner = sg2
+		inner.addNode(&Node{ID: "WS2", Kind: "start"})
+	}
+	st := inner.Nodes[0].ID
+	inner.addNode(&Node{ID: "IF", Kind: "and"})
+	inner.connect(defs, st, "IF", nil, -1)
+	nb := 2 + d.N(2)
+	var ends []string
+	nth := 0
+	for b := 1; b <= nb; b++ {
+		c := "IF"
+		for j, nn := 0, d.N(3); j < nn; j++ {
+			n := mk(inner, fmt.Sprintf("B%d_%d", b, j+1))
+			inner.connect(defs, c, n.ID, nil, -1)
+			c = n.ID
+		}
+		k := d.N(5)
+		if k == 4 && acts > 1 {
+			k = 3 // (the reference model counts retries per activity, not per token)
+		}
+		switch k {
+		case 0:
+			e := inner.addNode(&Node{ID: fmt.Sprintf("IE%d", b), Kind: "end"})
+			inner.connect(defs, c, e.ID, nil, -1)
+			ends = append(ends, "end event")
+		case 1:
+			nth++
+			n := inner.addNode(&Node{ID: fmt.Sprintf("TH%d", nth), Kind: "throw"})
+			inner.connect(defs, c, n.ID, nil, -1)
+			ends = append(ends, "throw event without outgoing flow")
+		case 2:
+			n := mk(inner, fmt.Sprintf("D%d", b))
+			inner.connect(defs, c, n.ID, nil, -1)
+			ends = append(ends, "task without outgoing flow")
+		case 3:
+			n := mk(inner, fmt.Sprintf("X%d", b))
+			inner.connect(defs, c, n.ID, nil, -1)
+			e := inner.addNode(&Node{ID: fmt.Sprintf("IE%d", b), Kind: "end"})
+			inner.connect(defs, n.ID, e.ID, nil, -1)
+			late := d.N(3) == 2
+			for a := 0; a < acts; a++ {
+				scripts[n.ID] = append(scripts[n.ID], AnswerSpec{Mode: "exit", LateHandler: late})
+			}
+			ends = append(ends, "task answered with an error, exit")
+		case 4:
+			n := mk(inner, fmt.Sprintf("R%d", b))
+			inner.connect(defs, c, n.ID, nil, -1)
+			e := inner.addNode(&Node{ID: fmt.Sprintf("IE%d", b), Kind: "end"})
+			inner.connect(defs, n.ID, e.ID, nil, -1)
+			rt := 1 + d.N(2)
+			for a := 0; a < acts; a++ {
+				for q := 0; q <= rt; q++ {
+					scripts[n.ID] = append(scripts[n.ID], AnswerSpec{Mode: "retry", Retries: rt})
+				}
+			}
+			ends = append(ends, fmt.Sprintf("task whose %d retries run out", rt))
+		}
+	}
+	if levels == 1 {
+		// (with two levels WE1 closes the outer one)
+	}
+	cur = "W1"
+	if loop {
+		tc := g.addNode(&Node{ID: "TC", Kind: "task", Results: []string{"r_TC", "i_TC"}, Counter: "i_TC"})
+		g.connect(defs, cur, tc.ID, nil, -1)
+		g.addNode(&Node{ID: "LS", Kind: "xor"})
+		g.connect(defs, "TC", "LS", nil, -1)
+		g.connect(defs, "LS", "LM", &Cond{LtVar: "i_TC", Lt: acts}, -1)
+		mk(g, "TP")
+		df := g.connect(defs, "LS", "TP", nil, -1)
+		g.Node("LS").Default = df.ID
+	} else if par {
+		mk(g, "TS")
+		g.connect(defs, "PF", "TS", nil, -1)
+		g.addNode(&Node{ID: "PJ", Kind: "and"})
+		g.connect(defs, "W1", "PJ", nil, -1)
+		g.connect(defs, "TS", "PJ", nil, -1)
+		mk(g, "TP")
+		g.connect(defs, "PJ", "TP", nil, -1)
+	} else {
+		mk(g, "TP")
+		g.connect(defs, cur, "TP", nil, -1)
+	}
+	g.addNode(&Node{ID: "End", Kind: "end"})
+	g.connect(defs, "TP", "End", nil, -1)
+	g.index()
+	prog := &Program{Defs: defs, Vars: map[string]any{}, Wrapped: levels, Tags: []string{"inner-tokens-end-in-their-own-ways"},
+		Desc: fmt.Sprintf("sub-process (%d level(s), in parallel branch=%v, activations=%d) whose content forks into branches ending: %v; then TP", levels, par, acts, ends)}
+	w := &ProcCase{Prog: prog, Buf: d.N(17), Hold: d.N(3), Picks: drawPicks(d, 48), Scripts: scripts}
+	w.Meta = map[string]int{"ends": 1, "par": b2i(par), "acts": acts}
+	return &TwinCase{Wrapped: w}
 }
 
 func genC12(d *Draw) Case {
+	if d.N(5) == 4 {
+		return genC12Ends(d)
+	}
 	opts := ProgOpts{Kinds: []string{"seq", "xor", "and", "or", "loop", "condtask"}, MaxDepth: 1 + d.N(2), MaxTasks: 3 + d.N(5), OrEarlyEnd: false, Wrap: true} // blocks must be single-entry single-exit for the inlined twin to be equivalent
 	var kinds []string
 	for _, k := range opts.Kinds {
@@ -922,6 +1078,20 @@ func checkC12(cc Case, r *simrt.Result) *Outcome {
 	genericRunViolations("C12", r, &vl)
 	tw := CheckTokenGame("C12", t.Wrapped.Prog, t.Wrapped.env.L.E)
 	vl.v = append(vl.v, tw.Viol...)
+	if t.Flat == nil {
+		for _, p := range r.Panics {
+			vl.add("C12/panic", "%s", p)
+		}
+		o.Viol = vl.v
+		o.Tags = t.Wrapped.Prog.Tags
+		o.Nontrivial = r.Switches > 0
+		probe(o, "inner-tokens-end-in-their-own-ways", true)
+		probe(o, "nesting>=2", t.Wrapped.Prog.Wrapped >= 2)
+		probe(o, "sub-inside-parallel", t.Wrapped.Meta["par"] == 1)
+		probe(o, "sub-with-ending-branches-re-entered", t.Wrapped.Meta["acts"] > 1)
+		o.Sample = map[string]any{"program": t.Wrapped.Prog.Desc, "requests": tw.Requests}
+		return o
+	}
 	tf := CheckTokenGame("C12flat", t.Flat.Prog, t.Flat.env.L.E)
 	if len(tf.Viol) == 0 && len(tw.Viol) == 0 {
 		// differential: same multiset of requests, same completion, same variables
